@@ -2,10 +2,10 @@ package main
 
 import (
 	"fmt"
-	"os"
 	"go/token"
 	"go/types"
 	"golang.org/x/tools/go/callgraph"
+	"os"
 	"strings"
 
 	"golang.org/x/tools/go/ssa"
